@@ -21,7 +21,7 @@ var get(var self, var key) {
   return ((struct Tuple*)self)->items[i];
 }
 /* c_int / c_float are the real ones of src/Num.c (fast path on type_of) */
-char* c_str(var x) { __CPROVER_assert(HDR(x)->type == String, "c_str of a String argument"); return ((struct String*)x)->val; }
+/* c_str is the real one of src/String.c (fast path on type_of) */
 var instance(var self, var cls) { return NULL; }
 var method_at_offset(var self, var cls, size_t offset, const char* m) { __CPROVER_assert(0, "no method dispatch expected"); return NULL; }
 var assign(var self, var obj) {
